@@ -328,3 +328,31 @@ Definition store_at {B} (storage : list B) (start : nat) (bytes : list B) : list
   (firstn start storage ++ bytes ++ skipn (start + List.length bytes) storage)%list.
 Definition run_assign {B} (writes : list (nat * list B)) (storage : list B) : list B :=
   fold_left (fun s w => store_at s (fst w) (snd w)) writes storage.
+
+(* ---------------------------------------------------------------- writer tasks that may FAIL (repair S2) *)
+(* a task writes its value, or raises exception e (existsok=False on an existing file, a full disk, ...) *)
+Definition wtask := (path * (Z + nat))%type.
+Inductive wout := WDone (d : list (path * Z)) | WRaised (e : nat).
+
+(* single-threaded: _populate_memmap is called inline, entry by entry; the first failure propagates at once *)
+Fixpoint run_writes_st (ops : list wtask) (d : list (path * Z)) : wout :=
+  match ops with
+  | [] => WDone d
+  | (p, inl v) :: r => run_writes_st r (aset d p v)
+  | (_, inr e) :: _ => WRaised e
+  end.
+
+Fixpoint first_failure (ops : list wtask) : option nat :=
+  match ops with [] => None | (_, inr e) :: _ => Some e | (_, inl _) :: r => first_failure r end.
+Definition oks (ops : list wtask) : list (path * Z) :=
+  flat_map (fun t => match snd t with inl v => [(fst t, v)] | inr _ => [] end) ops.
+
+(* thread pool: every task is submitted and runs (in the completion order [completed], a permutation of [submitted]; a failing
+   task stores its exception in its future); then
+       concurrent.futures.wait(futures); for future in futures: future.result()
+   re-raises the failure of the first failing future IN SUBMISSION ORDER *)
+Definition run_writes_mt (submitted completed : list wtask) (d : list (path * Z)) : wout :=
+  match first_failure submitted with
+  | Some e => WRaised e
+  | None => WDone (run_writes (oks completed) d)
+  end.
